@@ -19,11 +19,15 @@ ObsOk(s, obs) ==
   LET exp == Expected(s) IN
   /\ obs.ok = exp.ok
   /\ ~exp.ok => obs.exc = exp.exc
-  /\ Len(obs.out) = Len(exp.out)
-  /\ \A j \in 1..Len(exp.out) : ItemOk(s.mode, exp.out[j], obs.out[j])
+  \* the order of the objects of one file is not documented (LogOkRead compares the bags); what was yielded before
+  \* an exception must be among the expected items
+  /\ exp.ok => Len(obs.out) = Len(exp.out)
+  /\ \A j \in 1..Len(obs.out) : \E k \in 1..Len(exp.out) : ItemOk(s.mode, exp.out[k], obs.out[j])
+  /\ exp.ok => \A k \in 1..Len(exp.out) : \E j \in 1..Len(obs.out) : ItemOk(s.mode, exp.out[k], obs.out[j])
+  /\ (exp.ok /\ s.mode # "read") => \A j \in 1..Len(exp.out) : ItemOk(s.mode, exp.out[j], obs.out[j])
 RecOk(r) == ObsOk(r.sc, r.obs) /\ LogOk(r.sc, FixLog(r.log))
 \* the variables of the protocol machine of RootIO are not used here
-Idle == /\ sc = 0 /\ i = 0 /\ open = 0 /\ opened = 0 /\ closed = 0 /\ yielded = 0 /\ fills = 0 /\ enabled = 0
+Idle == /\ sc = 0 /\ proto = 0 /\ i = 0 /\ open = 0 /\ opened = 0 /\ closed = 0 /\ yielded = 0 /\ fills = 0 /\ enabled = 0
         /\ written = 0
 TInit == n = 1 /\ Idle
 TNext == n <= Len(Trace) /\ RecOk(Trace[n]) /\ n' = n + 1 /\ UNCHANGED vars
